@@ -1,6 +1,5 @@
 SPECIFICATION Spec
 CONSTANTS
-  T = 2
-  Counts <- C23
+  Configs <- CfgT2
   DEV <- NoDev
-INVARIANTS ExactlyOnce ReturnOnlyAfterAll FinishUnderMutex InitBeforeExec OneFinishPerWorker MutexOK RaceOnFinishedOnly
+INVARIANTS ExactlyOnce ReturnOnlyAfterAll FinishUnderMutex InitBeforeExec OneFinishPerWorker MutexOK NoRace
